@@ -40,6 +40,10 @@ ASSUMPTIONS.update({
     "format_type_error": "format_type_error returns some ErrorMessage and does not panic",
     "eval_block": "eval_block (eval.rs; under contract in unit blocks): pushes a bindings block and the block's expressions; does not touch the value stack or other frames",
     "binop_for_assert": "binop_for_assert (eval.rs:7065) inspects the expression only",
+    "eval_break": "eval_break: keeps the frame's base block count (PROVED in unit blocks under `for_values_present`, which is assumed here)",
+    "eval_continue": "eval_continue: keeps the frame's base block count (PROVED in unit blocks)",
+    "eval_match_cases": "eval_match_cases (eval.rs) is NOT verified here: assumed to push exactly one bindings block (through eval_block) and no owner entry when it succeeds",
+    "done_subexpressions": "-",
     "rv_len": "rpds::Vector::len", "rv_get": "rpds::Vector index",
     "has": "Bindings::has inspects the bindings only", "set_existing": "Bindings::set_existing (under contract elsewhere): updates bindings only; requires the variable to be bound in this frame (else unreachable!())",
     "is_underscore": "SymbolName::is_underscore", "vsym_eq": "SymbolName == SymbolName",
@@ -49,6 +53,9 @@ ASSUMPTIONS.update({
 })
 LEMMAS = {}
 UNVERIFIED = {
+    "C06": ["the arms of eval_expr other than Match/If/While/ForIn/Try/Return/Break/Continue (they neither push nor pop bindings blocks in the source; not under contract)",
+            "eval_match_cases and the operand-count / loop-index preconditions of the arms (evaluator invariants established by earlier steps) are assumed; eval_break / eval_continue / eval_block are proved in unit blocks",
+            "function frames: a frame is created with one bindings block (Bindings::new_with) and dropped whole when the call returns"],
     "C07": ["eval_expr's dispatch (which step function runs for which expression state, and that the state handed back to restore_stack_frame re-runs the same step)",
             "continuation entries a step pushed to exprs_to_eval before failing stay there (If/Match/While arms of eval_expr): harmless for a repeated :resume, not covered",
             "eval_let, eval_struct_value, eval_match_cases, the list/tuple/dict literal arms of eval_expr, eval_namespace_access, eval_string_concat: not under contract (covered only by restore.bounded[resume_corpus])"],
@@ -77,6 +84,16 @@ WITNESSES = [
     _resume("`&&` on a non-Bool", ["True && 1"], r"steps\.eval_boolean_binop\."),
     _resume("assignment to an unbound variable", ["nosuchvar = 1"], r"steps\.eval_assign\."),
     _resume("field access on a non-struct", ["1.field"], r"steps\.eval_dot_access\."),
+    {"match": r"steps\.arm_Return\.", "kind": "json-session", "props": ["C06"],
+     "input": ["if True { let leaked_local = 1 return 5 }", "leaked_local"],
+     "expect": {"py": "('No such variable' not in out) and 'a block-local variable is still visible after `return` left the block: ' + out[-300:] or ''"},
+     "note": "a variable introduced in a block must not be visible after `return` left the block (top level of a session)"},
+    {"match": r"steps\.arm_Return\.", "kind": "json-session", "props": ["C06"],
+     "input": ["let i = 0", "while i < 3 { let in_loop = i if i == 1 { return i } i += 1 }", "in_loop"],
+     "expect": {"py": "('No such variable' not in out) and 'a loop-body variable is still visible after `return` left the loop: ' + out[-300:] or ''"}},
+    {"match": r"steps\.arm_(Match|If|While|ForIn|Try|Break|Continue)\.", "kind": "run-file", "props": ["C06"],
+     "input": "fun f(o: Option<Int>): Int {\n  let t = 0\n  for x in [1, 2, 3] {\n    let a = x\n    if x == 2 { let b = a  continue }\n    match o { Some(v) => { let c = v  t += c } None => { let d = 1  t += d } }\n    while t < 0 { let e = 1  t += e }\n    try { let g = 1  t += g } catch (err) { let h = 1  t += h }\n  }\n  t\n}\nprintln(string_repr(f(Some(2))))\nfun g(): Int { if True { let z = 1 } z }\ng()\n",
+     "expect": {"stdout_contains": "6", "stderr_contains": "No such variable"}, "note": "blocks of if/match/while/for/try are popped when they finish"},
     {"match": r"steps\.eval_equality_binop\.", "kind": "run", "props": ["C13"],
      "input": "let a = Dict[\"a\" => Ok(1), \"b\" => Err(\"x\")]\nlet b = Dict[\"b\" => Err(\"x\"), \"a\" => Ok(1)]\nprintln(string_repr(a == b))\nprintln(string_repr(a != b))\nprintln(string_repr([a] == [b]))\nprintln(string_repr(([], 1) == ([], 1)))\nprintln(string_repr([1, 2] == [1, 2]))\nprintln(string_repr(Some([]) == Some([1])))\nprintln(string_repr(1 == 1.0))",
      "expect": {"stdout": "True\nFalse\nTrue\nTrue\nTrue\nFalse\nFalse"}, "note": "structurally equal containers built separately (different literal order, different recorded element types) are equal"},
@@ -144,10 +161,58 @@ pub open spec fn others_same(a: Env, b: Env) -> bool {
 pub open spec fn restores(before: Env, after: Env, vs: Seq<Value>) -> bool {
     vals(before) =~= vals(after) + vs && others_same(before, after)
 }
+// ---- block accounting (C06): the owner model of units/blocks/specs.rs -----------------------
+pub open spec fn is_done_run(st: ExpressionState) -> bool {
+    st is PartiallyEvaluated && st->PartiallyEvaluated_0 is DoneRunBlock
+}
+/// the (state, expression) pairs whose dispatch arm pops a bindings block
+pub open spec fn owner(st: ExpressionState, e: Expression) -> bool {
+    match e.expr_ {
+        Expression_::If(..) | Expression_::Match(..) | Expression_::Try(..) => st is EvaluatedSubexpressions,
+        Expression_::While(..) => is_done_run(st),
+        Expression_::ForIn(..) => is_done_run(st) || st is EvaluatedSubexpressions,
+        _ => false,
+    }
+}
+pub open spec fn owners(es: Seq<(ExpressionState, Rc<Expression>)>) -> nat
+    decreases es.len(),
+{
+    if es.len() == 0 { 0 } else { owners(es.drop_last()) + (if owner(es.last().0, *es.last().1) { 1nat } else { 0nat }) }
+}
+pub broadcast proof fn lemma_owners_push_b(es: Seq<(ExpressionState, Rc<Expression>)>, x: (ExpressionState, Rc<Expression>))
+    ensures #[trigger] owners(es.push(x)) == owners(es) + (if owner(x.0, *x.1) { 1nat } else { 0nat }),
+{
+    assert(es.push(x).drop_last() =~= es);
+}
+pub open spec fn blocks(env: Env) -> int { top(env).bindings.block_bindings@.len() as int }
+pub open spec fn pend(env: Env) -> Seq<(ExpressionState, Rc<Expression>)> { top(env).exprs_to_eval@ }
+/// bindings blocks of the current frame that no pending expression will pop: 1 for every frame, always
+pub open spec fn base(env: Env) -> int { blocks(env) - owners(pend(env)) }
+/// the same count with the step that eval() has just popped put back
+pub open spec fn base_with(env: Env, st: ExpressionState, e: Rc<Expression>) -> int {
+    blocks(env) - owners(pend(env).push((st, e)))
+}
 #[verifier::external_body]
 pub fn eval_block(env: &mut Env, expr_value_is_used: bool, block: &Block)
     requires old(env).stack.0@.len() >= 1,
     ensures vals(*final(env)) == vals(*old(env)), others_same(*old(env), *final(env)),
+        blocks(*final(env)) == blocks(*old(env)) + 1, owners(pend(*final(env))) == owners(pend(*old(env))),
+{ unimplemented!() }
+#[verifier::external_body]
+pub fn eval_break(env: &mut Env, expr_value_is_used: bool)
+    requires old(env).stack.0@.len() >= 1, base(*old(env)) >= 1,
+    ensures base(*final(env)) == base(*old(env)), others_same(*old(env), *final(env)),
+{ unimplemented!() }
+#[verifier::external_body]
+pub fn eval_continue(env: &mut Env)
+    requires old(env).stack.0@.len() >= 1, base(*old(env)) >= 1,
+    ensures base(*final(env)) == base(*old(env)), others_same(*old(env), *final(env)),
+{ unimplemented!() }
+#[verifier::external_body]
+pub fn eval_match_cases(env: &mut Env, expr_value_is_used: bool, scrutinee_pos: &Position, cases: &Vec<(Pattern, Block)>) -> (r: Result<(), (RestoreValues, EvalError)>)
+    requires old(env).stack.0@.len() >= 1,
+    ensures others_same(*old(env), *final(env)),
+        r is Ok ==> blocks(*final(env)) == blocks(*old(env)) + 1 && owners(pend(*final(env))) == owners(pend(*old(env))),
 { unimplemented!() }
 /// the variable is bound in some bindings block of this frame (ghost)
 pub uninterp spec fn b_has(b: Bindings, id: InternedSymbolId) -> bool;
@@ -169,13 +234,19 @@ pub fn binop_for_assert(expr: &Rc<Expression>) -> (r: Option<(Rc<Expression>, Bi
 """
 
 
-def restore_contract(needs, extra_requires=(), props=None, hints=None, loops=None, err="r->Err_0.0.0@"):
+def restore_contract(needs, extra_requires=(), props=None, hints=None, loops=None, err="r->Err_0.0.0@", extra_ensures=(), body_prelude=None):
     return Contract(
         requires=[("stack_nonempty", "old(env).stack.0@.len() >= 1"), ("operands_on_value_stack", "vals(*old(env)).len() >= %s" % needs)] + list(extra_requires),
         ensures=[("failed_step_hands_back_what_it_popped", "r is Err ==> restores(*old(env), *final(env), %s)" % err, {"C07"}),
-                 ("other_frames_untouched", "others_same(*old(env), *final(env))", {"C07"})],
-        hints=hints or [], loops=loops or {},
+                 ("other_frames_untouched", "others_same(*old(env), *final(env))", {"C07"})] + list(extra_ensures),
+        hints=hints or [], loops=loops or {}, body_prelude=body_prelude,
         props=props or {"C07", "C02"})
+
+
+BU = "broadcast use lemma_owners_push_b;"
+# block accounting of a successful step (C06)
+ONE_BLOCK_MORE = ("pushes_one_block_no_owner", "r is Ok ==> blocks(*final(env)) == blocks(*old(env)) + 1 && owners(pend(*final(env))) == owners(pend(*old(env)))", {"C06"})
+BASE_KEPT = ("block_accounting_kept", "r is Ok ==> base(*final(env)) == base(*old(env))", {"C06"})
 
 
 TYPE_LIT = rw.simple("local", r"&TypeName \{\s*text: (\"[A-Za-z]+\")\.into\(\),\s*\}", r"&TypeNameLit { text: vs_string_from_lit(\1) }")
@@ -222,8 +293,8 @@ def build(tier):
     common.add_env_accessors(u, {"C07"}, both)
     V = "vals(*old(env))"
 
-    u.add_fn(EV, "eval_if", rules=BASE_RULES, contract=restore_contract("1"))
-    u.add_fn(EV, "eval_while_body", rules=BASE_RULES, contract=restore_contract("1"))
+    u.add_fn(EV, "eval_if", rules=BASE_RULES, contract=restore_contract("1", extra_ensures=[ONE_BLOCK_MORE], body_prelude=BU, props={"C07", "C02", "C06"}))
+    u.add_fn(EV, "eval_while_body", rules=BASE_RULES, contract=restore_contract("1", extra_requires=[("called_for_a_while_loop", "expr.expr_ is While")], extra_ensures=[BASE_KEPT], body_prelude=BU, props={"C07", "C02", "C06"}))
     u.add_fn(EV, "eval_boolean_binop", rules=BASE_RULES + [UNREACH], contract=restore_contract("2", extra_requires=[("is_boolean_operator", "op.kind is And || op.kind is Or")]))
     u.add_fn(EV, "eval_assert", rules=BASE_RULES, contract=restore_contract("(if recv_expr.expr_ is BinaryOperator { 3int } else { 1int })"))
     FOR_RULES = BASE_RULES + [UNREACH,
@@ -231,8 +302,8 @@ def build(tier):
         rw.simple("R2", r"\bitems\[(\w+) as usize\]\.clone\(\)", r"rv_get(items, \1 as usize).clone()"),
         rw.simple("R5", r"for \(symbol, item\) in symbols\.iter\(\)\.zip\(items\) \{", "let mut __i1: usize = 0; while __i1 < symbols.len() && __i1 < items.len() { let symbol = &symbols[__i1]; let item = &items[__i1]; __i1 += 1;"),
     ]
-    u.add_fn(EV, "eval_for_in", rules=FOR_RULES, contract=restore_contract("2",
-        extra_requires=[("loop_index_below_iterated_value", "*vals(*old(env))[vals(*old(env)).len() - 2].0 matches Value_::Int(i) && i >= 0")],
+    u.add_fn(EV, "eval_for_in", rules=FOR_RULES, contract=restore_contract("2", extra_ensures=[BASE_KEPT], body_prelude=BU, props={"C07", "C02", "C06"},
+        extra_requires=[("called_for_a_for_loop", "outer_expr.expr_ is ForIn"), ("loop_index_below_iterated_value", "*vals(*old(env))[vals(*old(env)).len() - 2].0 matches Value_::Int(i) && i >= 0")],
         loops={1: dict(invariant=[("frame", "env.stack.0@.len() >= 1, others_same(*old(env), *env), vals(*env) == vals(*old(env)).drop_last().drop_last()"), ("index_in_range", "0 <= iteree_idx < isize::MAX")], decreases="symbols@.len() - __i1")}))
     u.add_fn(EV, "eval_assign", rules=BASE_RULES, contract=restore_contract("1",
         hints=[dict(anchor="return Err", where="before", name="nothing_popped_yet", text="proof { assert(env.stack.0@ =~= old(env).stack.0@); }"),
@@ -258,6 +329,43 @@ def build(tier):
                  ("not_equal_is_its_negation", "expr_value_is_used && op.kind is NotEqual ==> vals(*final(env)) =~= vals(*old(env)).drop_last().drop_last().push(bool_val(!val_eq(%s, %s)))" % (L, R), {"C13"}),
                  ("other_frames_untouched", "others_same(*old(env), *final(env))", {"C07"})],
         props={"C13", "C02"}))
+    u.add_fn(EV, "done_subexpressions", impl="ExpressionState", contract=Contract(
+        ensures=[("def", "r == (*self is EvaluatedSubexpressions)")], props={"C06"}))
+    # ---- the block-handling arms of eval_expr (C06): every successful step keeps the frame's base block
+    # count, i.e. every block pushed for a pending expression is popped by exactly that expression
+    ARM_SIG = ("pub fn arm_%s(env: &mut Env, outer_expr: Rc<Expression>, expr_state: &mut ExpressionState)"
+               " -> Result<Option<StackFrame>, (RestoreValues, EvalError)>")
+    ARM_PREFIX = ("    let expr_position = outer_expr.position.clone();\n    let expr_value_is_used = outer_expr.value_is_used;\n    " + BU + "\n"
+                  "    match &outer_expr.expr_ {\n")
+    ARM_SUFFIX = ",\n        _ => {}\n    }\n    Ok(None)"
+    ARM_RULES = BASE_RULES + [UNREACH]
+    BW = "base_with(*old(env), *old(expr_state), outer_expr)"
+
+    def arm(name, pattern, extra_requires=(), hints=None):
+        u.add_block_fn(EV, "eval_expr", pattern, sig=ARM_SIG % name, name="arm_%s" % name,
+                       prefix=ARM_PREFIX, suffix=ARM_SUFFIX, rules=ARM_RULES,
+                       contract=Contract(
+                           requires=[("stack_nonempty", "old(env).stack.0@.len() >= 1"),
+                                     ("is_this_arm", "outer_expr.expr_ is %s" % name),
+                                     ("one_base_block", "%s == 1" % BW)] + list(extra_requires),
+                           ensures=[("block_accounting_kept", "r is Ok ==> base(*final(env)) == 1 && r->Ok_0 is None", {"C06"}),
+                                    ("other_frames_untouched", "others_same(*old(env), *final(env))", {"C06"})],
+                           hints=hints or [],
+                           props={"C06"}, safety_props={"C02", "C06"}))
+    VAL1 = ("operand_on_value_stack", "*old(expr_state) is PartiallyEvaluated ==> vals(*old(env)).len() >= 1")
+    NOT_NOTBLOCK = ("state_made_by_this_dispatch", "!(*old(expr_state) matches ExpressionState::PartiallyEvaluated(BlockState::NotBlock))")
+    arm("Match", "Expression_::Match(scrutinee, cases) => match expr_state {", extra_requires=[VAL1])
+    arm("If", "Expression_::If(condition, ref then_body, ref else_body) => match expr_state {", extra_requires=[VAL1])
+    arm("While", "Expression_::While(condition, ref body) => {", extra_requires=[VAL1, NOT_NOTBLOCK])
+    arm("ForIn", "Expression_::ForIn(sym, expr, body) => {", extra_requires=[
+        NOT_NOTBLOCK,
+        ("index_and_value_on_value_stack", "*old(expr_state) matches ExpressionState::PartiallyEvaluated(BlockState::WillRunBlock) ==> vals(*old(env)).len() >= 2"
+         " && (*vals(*old(env))[vals(*old(env)).len() - 2].0 matches Value_::Int(i) && i >= 0)")])
+    arm("Try", "Expression_::Try(try_body, _catch_sym, _catch_body) => match expr_state {",
+        extra_requires=[("state_made_by_this_dispatch", "!(*old(expr_state) is PartiallyEvaluated)")])
+    arm("Return", "Expression_::Return(expr) => {")
+    arm("Break", "Expression_::Break => {")
+    arm("Continue", "Expression_::Continue => {")
     u.add_canary_proof()
     u.raw(common.FOOTER)
     return u
